@@ -537,6 +537,7 @@ func c15GenerateSeed(st *c15State, seed uint64) {
 	// ---- the report: values printed by `pprof -top -unit=…` ----------------------------------------
 	st.cliStream(r.Fork())
 	st.reportStream(r.Fork())
+	st.nodeletStream(r.Fork())
 
 	// separate stream: samples with zero values (ScaleN's sample dropping lives here, so that a
 	// finding of that stream cannot hide one of the main stream)
